@@ -135,6 +135,36 @@ def _exercise_decoy(path):
                     pass
     except Exception:
         pass
+    # the same name seen through the other two ways of opening a reader: a blob client and an open file handle
+    try:
+        class _Blob:
+            blob_name = path
+            _data = open(path, 'rb').read()
+
+            def download_blob(self, offset=None, length=None):
+                d_ = self._data[offset:offset + length]
+                return types.SimpleNamespace(readall=lambda: d_)
+
+            def close(self):
+                pass
+        for handle in (_Blob(), open(path, 'rb')):
+            try:
+                with SgzReader(handle) as r:
+                    for f in (lambda: r.gen_trace_header(0), lambda: r.get_source_data_hash(), lambda: r.get_tracefield_values(189),
+                              lambda: r.get_trace(0), lambda: r.read_inline(0)):
+                        try:
+                            f()
+                        except Exception:
+                            pass
+            except Exception:
+                pass
+            finally:
+                try:
+                    handle.close()
+                except Exception:
+                    pass
+    except Exception:
+        pass
     try:
         with _sz.open(path) as f:
             for g in (lambda: f.header[0], lambda: f.trace[0], lambda: f.iline[int(f.ilines[0])], lambda: f.attributes(189)[:], lambda: f.text[0]):
